@@ -14,13 +14,9 @@
 package xstate
 
 import (
-	"bufio"
-	"bytes"
 	"crypto/sha256"
 	"encoding/binary"
-	"encoding/json"
 	"fmt"
-	"io"
 	"os"
 	"path/filepath"
 	"runtime"
@@ -83,7 +79,9 @@ type Config struct {
 	// ExchangeDir, waits for the files of the others and merges them, so all shards hold
 	// the same frontier and no transition is executed twice. Stats are per shard and sum
 	// to the global figures (a new state is counted by the shard that executed its
-	// representative transition). E must round-trip through encoding/json.
+	// representative transition). Histories travel between shards as sequences of menu
+	// positions (Enabled must be a deterministic function of the history), so E needs no
+	// serialisation.
 	// Useful when replays do not scale over the cores of one process (synctest bubbles
 	// hand control between goroutines constantly; with one P per process that is cheap).
 	ExchangeDir string
@@ -158,13 +156,14 @@ func hashKey(s string) hkey {
 
 // cand is the best transition seen so far that reaches a not yet seen key.
 type cand[E any] struct {
-	j      int // position of the (parent, event) pair in the depth's job list: the deterministic tie-break
-	ev     E   // the event of that transition
-	nev    int // size of the event menu of the reached state
-	events []E // the menu itself when known locally
+	j      int  // position of the (parent, event) pair in the depth's job list: the deterministic tie-break
+	ev     E    // the event of that transition (valid when mine)
+	nev    int  // size of the event menu of the reached state
+	events []E  // the menu itself when known locally
 	obs    []string
+	hist   []E // full history (valid when mine)
 	key    string
-	mine   bool
+	mine   bool // executed by this shard
 }
 
 // Run runs the BFS described by o.
@@ -191,8 +190,10 @@ func Run[E any](o Options[E]) Result[E] {
 		}
 	}
 	type node struct {
-		hist   []E
-		events []E // nil when only the size of the menu is known (state reached by another shard)
+		hist   []E     // events of the history; hist[i] is valid iff known[i]
+		idx    []int32 // position of hist[i] in the event menu of the state before it
+		known  []bool  // false: reached through another shard's transition, resolved by Enabled()[idx[i]] on first replay
+		events []E     // nil when only the size of the menu is known (state reached by another shard)
 		nev    int
 	}
 	type foundAt struct {
@@ -260,17 +261,31 @@ func Run[E any](o Options[E]) Result[E] {
 						capped.Store(fmt.Sprintf("deadline at depth %d (%d of %d transitions of this depth done)", depth+1, j, len(jobs)))
 						return
 					}
-					n := frontier[jobs[j].ni]
+					n := &frontier[jobs[j].ni]
 					var ev E
 					var key string
 					obsAll := make([]string, 0, len(n.hist)+1)
 					var viol []Violation
 					var childEvents []E
 					childN := -1
+					mu.Lock()
+					prefix := append([]E(nil), n.hist...)
+					known := append([]bool(nil), n.known...)
+					mu.Unlock()
+					resolved := false
 					run(func() {
 						s := o.Build()
 						rp, canReplay := s.(Replayer[E])
-						for _, e := range n.hist {
+						for i := range prefix {
+							if !known[i] {
+								menu := s.Enabled()
+								if int(n.idx[i]) >= len(menu) {
+									panic(fmt.Sprintf("xstate: event menu differs between shards (position %d of %d): Enabled is not a function of the history", n.idx[i], len(menu)))
+								}
+								prefix[i] = menu[n.idx[i]]
+								resolved = true
+							}
+							e := prefix[i]
 							var ob string
 							if canReplay {
 								ob = rp.Replay(e)
@@ -299,12 +314,18 @@ func Run[E any](o Options[E]) Result[E] {
 						}
 						s.Close()
 					})
-					events.Add(int64(len(n.hist) + 1))
-					hist := make([]E, len(n.hist)+1)
-					copy(hist, n.hist)
-					hist[len(n.hist)] = ev
+					events.Add(int64(len(prefix) + 1))
+					hist := make([]E, len(prefix)+1)
+					copy(hist, prefix)
+					hist[len(prefix)] = ev
 
 					mu.Lock()
+					if resolved {
+						copy(n.hist, prefix)
+						for i := range n.known {
+							n.known[i] = true
+						}
+					}
 					st.Transitions++
 					st.Replays++
 					st.Outcomes[obsAll[len(obsAll)-1]] = struct{}{}
@@ -329,9 +350,9 @@ func Run[E any](o Options[E]) Result[E] {
 						c := cands[hk]
 						if c == nil {
 							newState = true
-							cands[hk] = &cand[E]{j: j, ev: ev, nev: childN, events: childEvents, obs: obsAll, key: key, mine: true}
+							cands[hk] = &cand[E]{j: j, ev: ev, nev: childN, events: childEvents, obs: obsAll, hist: hist, key: key, mine: true}
 						} else if j < c.j {
-							*c = cand[E]{j: j, ev: ev, nev: childN, events: childEvents, obs: obsAll, key: key, mine: true}
+							*c = cand[E]{j: j, ev: ev, nev: childN, events: childEvents, obs: obsAll, hist: hist, key: key, mine: true}
 						}
 					}
 					if o.Transition != nil {
@@ -375,15 +396,22 @@ func Run[E any](o Options[E]) Result[E] {
 		nextFrontier := make([]node, 0, len(cl))
 		nex := 0
 		for _, c := range cl {
-			p := frontier[jobs[c.j].ni]
-			hist := make([]E, len(p.hist)+1)
-			copy(hist, p.hist)
-			hist[len(p.hist)] = c.ev
-			nextFrontier = append(nextFrontier, node{hist: hist, events: c.events, nev: c.nev})
+			p := &frontier[jobs[c.j].ni]
+			d := len(p.hist)
+			nn := node{hist: make([]E, d+1), idx: make([]int32, d+1), known: make([]bool, d+1), events: c.events, nev: c.nev}
+			copy(nn.hist, p.hist)
+			copy(nn.idx, p.idx)
+			copy(nn.known, p.known)
+			nn.idx[d] = int32(jobs[c.j].ei)
+			if c.mine {
+				nn.hist[d], nn.known[d] = c.ev, true
+			}
+			nextFrontier = append(nextFrontier, nn)
 			if c.mine {
 				st.States++
 				if nex < o.Examples {
-					res.Examples = append(res.Examples, Example[E]{History: hist, Obs: c.obs, Key: c.key})
+					// a state this shard reached: its whole history was resolved during the replay
+					res.Examples = append(res.Examples, Example[E]{History: c.hist, Obs: c.obs, Key: c.key})
 					nex++
 				}
 			}
@@ -404,27 +432,18 @@ func exchange[E any](cfg Config, depth int, cands map[hkey]*cand[E], capped stri
 	name := func(shard int) string {
 		return filepath.Join(cfg.ExchangeDir, fmt.Sprintf("xstate-%s-d%d-s%d.bin", cfg.ExchangeTag, depth, shard))
 	}
-	// write
-	var buf bytes.Buffer
-	w := bufio.NewWriter(&buf)
-	hdr := []byte(capped)
-	binary.Write(w, binary.LittleEndian, uint32(len(hdr)))
-	w.Write(hdr)
-	binary.Write(w, binary.LittleEndian, uint32(len(cands)))
+	// write: u32 len(capped) | capped | u32 n | n x (16-byte key hash, u32 job position, i32 menu size)
+	out := make([]byte, 0, 8+len(capped)+24*len(cands))
+	out = binary.LittleEndian.AppendUint32(out, uint32(len(capped)))
+	out = append(out, capped...)
+	out = binary.LittleEndian.AppendUint32(out, uint32(len(cands)))
 	for hk, c := range cands {
-		ej, jerr := json.Marshal(c.ev)
-		if jerr != nil {
-			return "", jerr
-		}
-		w.Write(hk[:])
-		binary.Write(w, binary.LittleEndian, uint32(c.j))
-		binary.Write(w, binary.LittleEndian, int32(c.nev))
-		binary.Write(w, binary.LittleEndian, uint16(len(ej)))
-		w.Write(ej)
+		out = append(out, hk[:]...)
+		out = binary.LittleEndian.AppendUint32(out, uint32(c.j))
+		out = binary.LittleEndian.AppendUint32(out, uint32(int32(c.nev)))
 	}
-	w.Flush()
 	tmp := name(cfg.Shard) + ".tmp"
-	if err := os.WriteFile(tmp, buf.Bytes(), 0o644); err != nil {
+	if err := os.WriteFile(tmp, out, 0o644); err != nil {
 		return "", err
 	}
 	if err := os.Rename(tmp, name(cfg.Shard)); err != nil {
@@ -452,46 +471,32 @@ func exchange[E any](cfg Config, depth int, cands map[hkey]*cand[E], capped stri
 			}
 			time.Sleep(5 * time.Millisecond)
 		}
-		r := bytes.NewReader(data)
-		var n uint32
-		if err := binary.Read(r, binary.LittleEndian, &n); err != nil {
-			return "", err
+		bad := fmt.Errorf("shard %d depth %d: truncated exchange file", sh, depth)
+		if len(data) < 4 {
+			return "", bad
 		}
-		h := make([]byte, n)
-		if _, err := io.ReadFull(r, h); err != nil {
-			return "", err
+		hl := int(binary.LittleEndian.Uint32(data))
+		if len(data) < 8+hl {
+			return "", bad
 		}
-		if len(h) > 0 && peerCapped == "" {
-			peerCapped = string(h)
+		if hl > 0 && peerCapped == "" {
+			peerCapped = string(data[4 : 4+hl])
 		}
-		if err := binary.Read(r, binary.LittleEndian, &n); err != nil {
-			return "", err
+		n := int(binary.LittleEndian.Uint32(data[4+hl:]))
+		recs := data[8+hl:]
+		if len(recs) != 24*n {
+			return "", bad
 		}
-		for i := uint32(0); i < n; i++ {
+		for i := 0; i < n; i++ {
+			rec := recs[24*i : 24*i+24]
 			var hk hkey
-			var j uint32
-			var nev int32
-			var l uint16
-			if _, err := io.ReadFull(r, hk[:]); err != nil {
-				return "", err
-			}
-			binary.Read(r, binary.LittleEndian, &j)
-			binary.Read(r, binary.LittleEndian, &nev)
-			if err := binary.Read(r, binary.LittleEndian, &l); err != nil {
-				return "", err
-			}
-			ej := make([]byte, l)
-			if _, err := io.ReadFull(r, ej); err != nil {
-				return "", err
-			}
-			if c := cands[hk]; c != nil && c.j <= int(j) {
+			copy(hk[:], rec[:16])
+			j := int(binary.LittleEndian.Uint32(rec[16:]))
+			nev := int(int32(binary.LittleEndian.Uint32(rec[20:])))
+			if c := cands[hk]; c != nil && c.j <= j {
 				continue
 			}
-			var ev E
-			if err := json.Unmarshal(ej, &ev); err != nil {
-				return "", err
-			}
-			cands[hk] = &cand[E]{j: int(j), ev: ev, nev: int(nev)}
+			cands[hk] = &cand[E]{j: j, nev: nev}
 		}
 	}
 	return peerCapped, nil
